@@ -45,4 +45,20 @@ def loadFSChecked (k : Keep) (txt : Bytes) : Option (Option FS9) :=
     let s := fsOfTree k tr
     if glueOK sizeOfLoc tr (treeOf s) then some s else none
 
+/-! ## the structural hypotheses on the list of ANY save, decided on the list the driver marshals -/
+
+/-- every listed directory's parent is listed; a directory that counts sub-directories has one listed -/
+def closedB (t : Tree9) : Bool :=
+  t.all (fun d => d.path.isEmpty || (dirPaths t).contains d.path.dropLast) &&
+  t.all (fun d => d.nsub == 0 || t.any (fun c => !c.path.isEmpty && c.path.dropLast == d.path))
+
+/-- no file has the path of a directory -/
+def noClashB (t : Tree9) : Bool :=
+  t.all (fun d => d.files.all (fun f => !(dirPaths t).contains (d.path ++ [f.1])))
+
+/-- closed, clash-free, distinct directory paths, distinct proper names -/
+def shapeOK (t : Tree9) : Bool :=
+  closedB t && noClashB t && decide (dirPaths t).Nodup && t.all (fun d => decide (d.files.map (·.1)).Nodup) &&
+  t.all (fun d => d.path.all nameOKb) && t.all (fun d => d.files.all (fun f => nameOKb f.1))
+
 end ArvVerif.C09
